@@ -345,6 +345,37 @@ func init() {
 			copy(w, w0)
 		}
 
+		// ---- H1b: a LATER parse or construction along the same path — of other bytes — leaves this value alone
+		//      (scratch memory shared between values, a "default the first caller sets")
+		{
+			w2 := append([]byte{}, w0...)
+			for _, span := range [][2]int{{len(w2) / 8, len(w2) / 2}, {len(w2) / 2, len(w2) * 7 / 8}, {32, 352}} {
+				alt := append([]byte{}, w2...)
+				lo, hi := span[0], span[1]
+				if hi > len(alt) {
+					hi = len(alt)
+				}
+				if lo >= hi {
+					continue
+				}
+				for i := lo; i < hi; i++ {
+					alt[i] ^= 0x5A
+				}
+				other, _, _ := c18Build(a[0], alt, aux)
+				if other == nil {
+					continue // the altered bytes are not accepted: nothing was built
+				}
+				if !same() {
+					for _, p := range []string{"C01", "C18", "C10"} {
+						add(p, "history:later-parse-disturbs-earlier-value:"+kind, "after another %s was built along the same path from different bytes (bytes %d…%d altered), the first value serialises differently", a[0], lo, hi)
+					}
+					s2, _ := ser()
+					ser0 = s2
+				}
+				break
+			}
+		}
+
 		// ---- H2: results handed out
 		calls := 0
 		subjects := histSubjects(root)
